@@ -1217,17 +1217,18 @@ tsk_treeseq_check_windows(const tsk_treeseq_t *self, tsk_size_t num_windows,
             goto out;
         }
     } else {
-        if (windows[0] < 0) {
+        if (!(windows[0] >= 0)) {
             ret = tsk_trace_error(TSK_ERR_BAD_WINDOWS);
             goto out;
         }
-        if (windows[num_windows] > self->tables->sequence_length) {
+        if (!(windows[num_windows] <= self->tables->sequence_length)) {
             ret = tsk_trace_error(TSK_ERR_BAD_WINDOWS);
             goto out;
         }
     }
     for (j = 0; j < num_windows; j++) {
-        if (windows[j] >= windows[j + 1]) {
+        /* Written so that NaN breakpoints are rejected */
+        if (!(windows[j] < windows[j + 1])) {
             ret = tsk_trace_error(TSK_ERR_BAD_WINDOWS);
             goto out;
         }
@@ -6596,7 +6597,8 @@ tsk_tree_seek(tsk_tree_t *self, double x, tsk_flags_t options)
     int ret = 0;
     const double L = tsk_treeseq_get_sequence_length(self->tree_sequence);
 
-    if (x < 0 || x >= L) {
+    /* Written so that a NaN position is rejected too */
+    if (!(x >= 0 && x < L)) {
         ret = tsk_trace_error(TSK_ERR_SEEK_OUT_OF_BOUNDS);
         goto out;
     }
